@@ -185,7 +185,7 @@ def run(tier: str) -> int:
         sql = {(x["d"], x["mode"]): x["_sql"] for x in rs}
         nestk = "/".join(p["nest"])
         for d, mode, conv in sorted(v["one"]):
-            rep.discrepancy([[d, mode, conv, p["elem"], p["nest"][0]], [d, mode, conv, p["elem"], nestk]],
+            rep.discrepancy([[d, mode, conv]] if conv == "set-operand-brackets" else [[d, mode, conv, p["elem"], p["nest"][0]], [d, mode, conv, p["elem"], nestk]],
                             {"dialect": d, "built": mode, "element": p["elem"], "nesting": p["nest"], "sql": sql[(d, mode)]},
                             what=f"convention '{conv}' of {d} is not followed inside {nestk}")
         for d, _ in sorted(v["mixed"]):
